@@ -338,3 +338,20 @@ Theorem C06_code_SHAGA_get_new_individ_g : forall fitness pop x MR CR ds,
   py_SHAGA_get_new_individ_g fitness pop x MR CR ds = shaga_new_individ pop fitness x MR CR ds.
 Proof. exact code_SHAGA_get_new_individ_g. Qed.
 Print Assumptions C06_code_SHAGA_get_new_individ_g.
+
+(* GeneticAlgorithm._get_new_individ_g (inherited by SelfCGA), translated on every run with the three unpacked pool entries as
+   parameters: for whatever functions and parameters the pools hold under the configured names (the generated pool tables:
+   C06_pools_named), the offspring is selection(scaled fitness, ranks, tour, quantity) -> crossover(population, scaled fitness,
+   ranks of the selected) -> mutation at the entry's rate (rate / str_len unless the entry is constant-rate) *)
+Theorem C06_code_GA_get_new_individ_g : forall
+    (selpy : list Q -> list Q -> Z -> Z -> M (list Z)) (sel : list Q -> list Q -> nat -> nat -> M (list Z)) (tour q : nat)
+    (cxpy cx : list (list Z) -> list Q -> list Q -> M (list Z)) (mupy : list Z -> Q -> M (list Z))
+    (proba : Q) (const : bool) fs fr pop ds,
+  selpy fs fr (Z.of_nat tour) (Z.of_nat q) ds = sel fs fr tour q ds ->
+  (forall r ds', sel fs fr tour q ds = Some (r, ds') -> Forall (fun v => (0 <= v)%Z) r) ->
+  (forall a b c ds', cxpy a b c ds' = cx a b c ds') ->
+  (forall c p ds', mupy c p ds' = flip_mutation c p ds') ->
+  py_GA_get_new_individ_g selpy (Z.of_nat tour) cxpy (Z.of_nat q) mupy proba const fs fr pop ds
+  = new_individ sel tour q cx proba const pop fs fr ds.
+Proof. exact code_GA_get_new_individ_g. Qed.
+Print Assumptions C06_code_GA_get_new_individ_g.
